@@ -21,7 +21,7 @@ from . import c05
 
 ID = 'C20'
 LEVEL = 'exploration'
-BUDGET_S = {'quick': 150, 'thorough': 1500}
+BUDGET_S = {'quick': 300, 'thorough': 1500}
 RULE = ('lane calls: a case = one helper called with one generated argument list on both classes; non-trivial = at least one side returns a '
         'value that is not an error string and the helper is not a plain getter; lane hand: a case = one formula cell evaluated on the generated '
         'class and on the hand-written subclass of the base, non-trivial = the formula calls a function; lane names: one case per helper; '
